@@ -91,6 +91,7 @@ type c34Case struct {
 	RespChunks    []c34Chunk `json:"resp_chunks,omitempty"`
 	RespDecl      bool       `json:"resp_decl,omitempty"`
 	ExplicitWH    bool       `json:"explicit_wh,omitempty"`    // call WriteHeader explicitly
+	LateHdr       bool       `json:"late_hdr,omitempty"`       // after an explicit WriteHeader the handler changes its header map and the value slices in it
 	RespTrailers  []c34KV    `json:"resp_trailers,omitempty"`  // announced in a Trailer header
 	RespPTrailers []c34KV    `json:"resp_ptrailers,omitempty"` // http.TrailerPrefix
 	CliRead       int        `json:"cli_read"`
@@ -284,6 +285,7 @@ func c34Gen(t *rapid.T) c34Case {
 		c.RespDecl = total > 0 && c.Status != 204 && rapid.Bool().Draw(t, "respDecl")
 	}
 	c.ExplicitWH = rapid.Bool().Draw(t, "explicitWH")
+	c.LateHdr = c34Pick(t, "lateHdr", 3) == 0
 	if c34Pick(t, "respTrQ", 3) == 0 {
 		c.RespTrailers = c34GenKVs(t, "respTr", c34TrNames[:3], 2, true)
 		c.RespPTrailers = c34GenKVs(t, "respPTr", c34TrNames[3:], 2, true)
@@ -512,10 +514,25 @@ func c34Handler(c c34Case, seen *c34Seen) http.Handler {
 		if c.Order == 0 {
 			readReq()
 		}
+		wroteHeader := false
 		if c.ExplicitWH || len(c.RespChunks) == 0 {
 			w.WriteHeader(c.Status)
+			wroteHeader = true
 		} else if c.Status != 200 {
 			w.WriteHeader(c.Status)
+			wroteHeader = true
+		}
+		if wroteHeader && c.LateHdr {
+			// the response header is what the map held when WriteHeader was called
+			// (net/http.ResponseWriter: "Changing the header map after a call to
+			// WriteHeader has no effect"), also for a handler that keeps using the
+			// value slices it put there
+			for _, kv := range c.RespHdr {
+				if vs := h[http.CanonicalHeaderKey(kv.K)]; len(vs) > 0 {
+					vs[len(vs)-1] = "changed-after-writeheader"
+				}
+			}
+			h.Set("X-Late", "1")
 		}
 		body := c34Pattern(c.RespSeed, respLen)
 		for i, ch := range c.RespChunks {
